@@ -885,7 +885,18 @@ def _shrinks(spec):
             yield [spec[0], spec[1][:i] + spec[1][i + 1:]]
 
 
+_shrunk = {}
+
+
 def shrink(ctx, case, detail):
+    """structural shrinking, re-checking the oracle on the real code; one shrink per violation kind."""
+    want = detail.get("kind") if isinstance(detail, dict) else None
+    if want not in _shrunk:
+        _shrunk[want] = _shrink(ctx, case, detail)
+    return _shrunk[want]
+
+
+def _shrink(ctx, case, detail):
     from .. import pool
     want = detail.get("kind") if isinstance(detail, dict) else None
     if case.get("kind", "triple") != "triple":
@@ -934,7 +945,7 @@ def search(ctx):
     from .. import pool
     for s in range(1, 4):
         sub = core.Ctx(ID, "quick", ctx.seed + 7919 * s)
-        cases = phase1(sub, gen_cases(sub, scale=3.0))
+        cases = phase1(sub, gen_cases(sub, scale=1.0))
         res = pool.run(MOD, "impl", cases, timeout=120)
         ctx.search_log.append("seed %d: %d cases, oracle only" % (sub.seed, len(cases)))
         for c, r in zip(cases, res):
